@@ -4,10 +4,15 @@
    UPDATE replaces the row when it exists; DELETE removes it; nothing else changes.
    Hypotheses: one writer with non-decreasing write times (tmax <= t), keys in the safe domain
    (C07), the table invariant TInv (established by these very theorems from the empty table).
+   SELECT (ScanProofs): for every well-formed tree, every list of key constraints with safe
+   operands and both directions, the rows SQLite keeps after re-checking the constraints on what
+   the cursor hands back are exactly the live rows that satisfy all constraints — the entries of
+   that same map — in ascending (descending) key order: the scan window built by Filter never
+   hides, repeats or reorders a qualifying row.
    Only [exact lemma] statements followed by Print Assumptions. *)
 From Coq Require Import ZArith List Bool.
 From S3db Require Import Base KeyOrder RowMerge Tree Store KvProto Inst Stmt.
-From S3db.proofs Require Import KeyOrderProofs RowMergeProofs TreeProofs StmtProofs.
+From S3db.proofs Require Import KeyOrderProofs RowMergeProofs TreeProofs StmtProofs ScanProofs.
 Import ListNotations.
 Open Scope Z_scope.
 
@@ -44,6 +49,47 @@ Theorem C06_delete tmax tb t key :
 Proof. exact (delete_refines n bf tmax tb t key). Qed.
 End C06.
 
+(* ---- SELECT: the scan window never hides, repeats or reorders a qualifying row ---- *)
+Theorem C06_select_is_filter_and_sort (tb : table) (desc : bool) (cs : list (cop * sval)) :
+  wf (h_tree (tb_h tb)) -> Forall (fun c => D (snd c)) cs ->
+  select_model tb desc cs =
+    Some (map (fun kr => (bridge_result (fst kr), row_values (tb_ncols tb) (snd kr)))
+              (let qualifying := filter (goodb cs) (live (h_tree (tb_h tb))) in
+               if desc then rev qualifying else qualifying)).
+Proof. exact (select_is_filter_and_sort tb desc cs). Qed.
+
+Theorem C06_qualifying_rows (t : tree (cval row)) (cs : list (cop * sval)) k r :
+  In (k, r) (filter (goodb cs) (live t)) <->
+  (exists v, In (k, v) t /\ row_live v = Some r) /\ forall c, In c cs -> sat k c = true.
+Proof. exact (qualifying_rows t cs k r). Qed.
+
+Theorem C06_selected_row_is_map_entry (tb : table) cs k r :
+  wf (h_tree (tb_h tb)) ->
+  In (k, r) (filter (goodb cs) (live (h_tree (tb_h tb)))) ->
+  abs tb k = Some (vals_of r) /\ forall c, In c cs -> sat k c = true.
+Proof. exact (selected_row_is_map_entry tb cs k r). Qed.
+
+Theorem C06_map_entry_is_selected (tb : table) cs k vals :
+  wf (h_tree (tb_h tb)) -> D k -> Forall (fun c => D (snd c)) cs ->
+  abs tb k = Some vals -> (forall c, In c cs -> sat k c = true) ->
+  exists k' r, In (k', r) (filter (goodb cs) (live (h_tree (tb_h tb)))) /\ order_t k k' = Eq /\ vals_of r = vals.
+Proof. exact (map_entry_is_selected tb cs k vals). Qed.
+
+(* both directions and several bounds on one side, on a concrete table *)
+Example C06_select_example :
+  let t : tree (cval row) := [(VInt 1, mk_set 5 empty_row); (VInt 2, mk_set 5 empty_row); (VInt 3, mk_set 5 empty_row)] in
+  let h := {| h_ro := false; h_tree := t; h_dirty := false; h_link := None; h_created := None;
+              h_source := None; h_msources := []; h_mode := 1; h_bf := 4096; h_merged := [];
+              h_tombstoned := false; h_conf := 0 |} in
+  let tb := {| tb_h := h; tb_tx := None; tb_ncols := 0; tb_ro := false |} in
+  wf t /\
+  select_model tb false [(OpLT, VInt 3); (OpLE, VInt 3); (OpGE, VInt 2)] = Some [(VInt 2, [])] /\
+  select_model tb true [(OpGT, VInt 1)] = Some [(VInt 3, []); (VInt 2, [])].
+Proof.
+  cbv zeta. split; [|split; vm_compute; reflexivity].
+  repeat (apply wf_cons; [reflexivity| |repeat constructor]). apply wf_nil.
+Qed.
+
 (* the empty table satisfies the invariant, so the theorems chain from CREATE onwards *)
 Example C06_nonvacuous :
   let h := {| h_ro := false; h_tree := []; h_dirty := false; h_link := None; h_created := None;
@@ -65,3 +111,8 @@ Print Assumptions C06_null_key_rejected.
 Print Assumptions C06_update.
 Print Assumptions C06_delete.
 Print Assumptions C06_nonvacuous.
+Print Assumptions C06_select_is_filter_and_sort.
+Print Assumptions C06_qualifying_rows.
+Print Assumptions C06_selected_row_is_map_entry.
+Print Assumptions C06_map_entry_is_selected.
+Print Assumptions C06_select_example.
